@@ -62,6 +62,9 @@ Proof.
   destruct (write_image (img_compress 3) c_id_table_limit ex_cfg ex_inp) as [w| | |] eqn:E; try exact R.
   destruct ex_w2 as [w2| | |]; try contradiction. destruct F as [F _]. destruct R as (_ & _ & S & _).
   apply N.ltb_lt in S.
+  (* the side condition first, so that a regenerated constant that violates it fails HERE at once (inlined as
+     ltac:(...) in the term below, a false instance made elaboration run for the whole make time-out) *)
+  assert (L : (c_id_table_limit <= 65535)%N) by (vm_compute; discriminate).
   exact (image_laid (img_compress 3) (img_uncompress 3) (img_contract 3 (or_intror eq_refl)) c_id_table_limit
-           ltac:(vm_compute; discriminate) ex_cfg ex_inp w E D1 F S).
+           L ex_cfg ex_inp w E D1 F S).
 Qed.
